@@ -116,7 +116,7 @@ struct Stored {
     count: u8,
 }
 
-async fn read_log(db: &Database, partition: u16) -> Result<Vec<Stored>, String> {
+async fn read_log_async(db: &Database, partition: u16) -> Result<Vec<Stored>, String> {
     let mut out = Vec::new();
     let mut iter = db.read_partition(partition, 0, IterDirection::Forward).await.map_err(|e| e.to_string())?;
     while let Some(commits) = iter.next_batch(64).await.map_err(|e| e.to_string())? {
@@ -129,6 +129,12 @@ async fn read_log(db: &Database, partition: u16) -> Result<Vec<Stored>, String> 
     Ok(out)
 }
 
+/// Reads a node's partition log straight from its store (no tokio needed: the store's futures are
+/// completed by its own threads).
+fn read_log(db: &Database, partition: u16) -> Result<Vec<Stored>, String> {
+    futures::executor::block_on(read_log_async(db, partition))
+}
+
 pub fn execute(prop: &str, plan_v: &Value) -> RunOutcome {
     let plan: C10Plan = match serde_json::from_value(plan_v.clone()) {
         Ok(p) => p,
@@ -138,10 +144,8 @@ pub fn execute(prop: &str, plan_v: &Value) -> RunOutcome {
             return out;
         }
     };
-    let rt = tokio::runtime::Builder::new_current_thread().enable_all().start_paused(true).build().expect("runtime");
     let prop = prop.to_string();
-    let res = crate::util::catch(|| rt.block_on(driver::spin(run(prop.clone(), plan))));
-    drop(rt);
+    let res = crate::util::catch(|| run(prop.clone(), plan));
     match res {
         Ok(out) => out,
         Err(panic) => {
@@ -260,13 +264,13 @@ impl Checker {
     }
 }
 
-async fn snapshot(cluster: &Cluster, partitions: u16, offline: &mut BTreeMap<usize, BTreeMap<u16, Vec<Stored>>>) -> Result<BTreeMap<usize, BTreeMap<u16, Vec<Stored>>>, String> {
+fn snapshot(cluster: &Cluster, partitions: u16, offline: &mut BTreeMap<usize, BTreeMap<u16, Vec<Stored>>>) -> Result<BTreeMap<usize, BTreeMap<u16, Vec<Stored>>>, String> {
     let mut logs = BTreeMap::new();
     for node in &cluster.nodes {
         if let Some(db) = &node.db {
             let mut parts = BTreeMap::new();
             for p in 0..partitions {
-                parts.insert(p, read_log(db, p).await?);
+                parts.insert(p, read_log(db, p)?);
             }
             offline.insert(node.index, parts.clone());
             logs.insert(node.index, parts);
@@ -278,23 +282,23 @@ async fn snapshot(cluster: &Cluster, partitions: u16, offline: &mut BTreeMap<usi
     Ok(logs)
 }
 
-async fn run(prop: String, plan: C10Plan) -> RunOutcome {
+fn run(prop: String, plan: C10Plan) -> RunOutcome {
     let simh = sim::sim();
     simh.reset_clock();
     driver::reset_counters();
-    kameo::remote::sim::reset_run(1000).await;
+    futures::executor::block_on(kameo::remote::sim::reset_run(1000));
     let cfg = ClusterCfg { n: plan.n, buckets: plan.buckets, partitions: plan.partitions, rf: plan.rf, hb_interval_ms: plan.hb_interval_ms, hb_timeout_ms: plan.hb_timeout_ms, buffer_size: 64, buffer_timeout_ms: 8_000, catchup_timeout_ms: 1_000 };
     let net = NetCfg { seed: plan.seed, loss_pct: plan.loss_pct, dup_pct: plan.dup_pct, max_delay_ms: plan.max_delay_ms, straggler_pct: plan.straggler_pct, straggler_ms: plan.straggler_ms };
     let mut cluster = Cluster::new(cfg, net, "c10");
     let quorum = plan.rf as usize / 2 + 1;
     let mut chk = Checker { prop: prop.clone(), quorum, partitions: plan.partitions, out: RunOutcome::default(), confirmed: BTreeMap::new(), acked_seen: BTreeMap::new() };
     for i in 0..plan.n {
-        cluster.start_node(i).await;
+        cluster.start_node(i);
     }
     cluster.lossy = false;
-    cluster.connect_all().await;
+    cluster.connect_all();
     // membership forms over the real gossip
-    cluster.run_until(plan.hb_interval_ms + 100).await;
+    cluster.run_until(plan.hb_interval_ms + 100);
     cluster.lossy = true;
 
     let keys: Vec<Uuid> = (0..plan.keys).map(|k| Uuid::from_u128(0x1000_0000_0000_4000_8000_0000_0000_0000u128 | ((plan.seed as u128) << 8) | k as u128)).collect();
@@ -306,7 +310,8 @@ async fn run(prop: String, plan: C10Plan) -> RunOutcome {
     for (i, op) in plan.ops.iter().enumerate() {
         sched.push_str(&format!("{op:?}"));
         if cluster.trace {
-            eprintln!("t={} op {op:?}", cluster.now_ms);
+            let views: Vec<Vec<usize>> = (0..plan.n).map(|i| cluster.active_view(i)).collect();
+            eprintln!("t={} op {op:?} views={views:?}", cluster.now_ms);
         }
         match op {
             Op::Write { node, key, events } if *node < plan.n && *key < keys.len() => {
@@ -335,7 +340,7 @@ async fn run(prop: String, plan: C10Plan) -> RunOutcome {
                 if let Some(actor) = cluster.nodes[*node].actor.clone() {
                     let writes = writes.clone();
                     let done = done.clone();
-                    tokio::spawn(async move {
+                    cluster.spawn_on(*node, async move {
                         let res = actor.ask(ExecuteTransaction::new(txn)).await;
                         writes.lock().unwrap()[slot].result = Some(res.map_err(|e| e.to_string()));
                         done.fetch_add(1, Ordering::SeqCst);
@@ -343,29 +348,29 @@ async fn run(prop: String, plan: C10Plan) -> RunOutcome {
                 } else {
                     writes.lock().unwrap()[slot].result = Some(Err("node down".into()));
                 }
-                cluster.settle().await;
+                cluster.settle();
             }
             Op::Advance { ms } => {
                 let t = cluster.now_ms + (*ms).min(20_000);
-                cluster.run_until(t).await;
+                cluster.run_until(t);
             }
             Op::Cut { a, b, on } if *a < plan.n && *b < plan.n && a != b => cluster.cut(*a, *b, *on),
             Op::Isolate { a, on } if *a < plan.n => cluster.isolate(*a, *on),
             Op::Crash { a } if *a < plan.n && cluster.is_up(*a) => {
                 // what the disk holds at the crash is read after the restart (reopen = recovery)
-                cluster.crash_node(*a).await;
+                cluster.crash_node(*a);
             }
             Op::Restart { a } if *a < plan.n && !cluster.is_up(*a) => {
-                cluster.start_node(*a).await;
+                cluster.start_node(*a);
                 for b in 0..plan.n {
                     if b != *a && cluster.is_up(b) {
-                        cluster.connect(*a, b).await;
+                        cluster.connect(*a, b);
                     }
                 }
             }
             _ => {}
         }
-        match snapshot(&cluster, plan.partitions, &mut offline).await {
+        match snapshot(&cluster, plan.partitions, &mut offline) {
             Ok(logs) => {
                 let w = writes.lock().unwrap().clone();
                 chk.check("after-op", &logs, &w, &cluster.coordinators);
@@ -387,13 +392,13 @@ async fn run(prop: String, plan: C10Plan) -> RunOutcome {
         }
         for a in 0..plan.n {
             if !cluster.is_up(a) {
-                cluster.start_node(a).await;
+                cluster.start_node(a);
             }
         }
-        cluster.connect_all().await;
+        cluster.connect_all();
         let t = cluster.now_ms + 32_000;
-        cluster.run_until(t).await;
-        match snapshot(&cluster, plan.partitions, &mut offline).await {
+        cluster.run_until(t);
+        match snapshot(&cluster, plan.partitions, &mut offline) {
             Ok(logs) => {
                 let w = writes.lock().unwrap().clone();
                 chk.check("final", &logs, &w, &cluster.coordinators);
@@ -445,6 +450,6 @@ async fn run(prop: String, plan: C10Plan) -> RunOutcome {
     chk.out.event_hash = eh.0;
     chk.out.evaluations = chk.out.evaluations.max(1);
     chk.out.sample = Some(json!({"n": plan.n, "rf": plan.rf, "ops": plan.ops.len(), "loss_pct": plan.loss_pct, "dup_pct": plan.dup_pct, "max_delay_ms": plan.max_delay_ms, "writes": w.len()}));
-    cluster.shutdown().await;
+    cluster.shutdown();
     chk.out
 }
